@@ -9,7 +9,7 @@ Driver handler for C03.
 * attribute: `none` or `(s cp…)` (the attribute text after `trim()`),
 * cell: `none` | `other` | `(el v…)`,
 * rule: `((t|f|o …) (v…))`,
-* value: `null` | `(b true)` | `(n 5)` | `(s cp…)` | `(a kind (s cp…))` | `(l v…)` | `(c ((s cp…) v)…)`.
+* value: `null` | `(b true)` | `(n 5)` | `(n 15 2)` (= 0.15: coefficient and scale, normal form) | `(s cp…)` | `(a kind (s cp…))` | `(l v…)` | `(c ((s cp…) v)…)`.
 
 Answer: `(<model outcome> <spec value> <number of matching rules>)` with outcome
 `(ok v)` | `(panic site)` | `(error)`; `(bad-hit-policy)` when the attributes do not parse.
@@ -33,7 +33,11 @@ def kindStr : AKind → String
 partial def valueOf : Sexp → Option DTValue
   | .atom "null" => some .null
   | .list [.atom "b", b] => (Sexp.bool? b).map DTValue.bool
-  | .list [.atom "n", n] => (Sexp.int? n).map DTValue.num
+  | .list [.atom "n", n] => (Sexp.int? n).map (fun c => DTValue.num (DNum.ofInt c))
+  | .list [.atom "n", n, k] => do
+    let c ← Sexp.int? n
+    let k ← Sexp.nat? k
+    pure (.num (DNum.norm c k))
   | .list [.atom "a", .atom k, t] => do
     let k ← kindOf k
     let t ← Sexp.chars? t
@@ -52,7 +56,7 @@ partial def valueOf : Sexp → Option DTValue
 partial def valueStr : DTValue → String
   | .null => "null"
   | .bool b => s!"(b {b})"
-  | .num n => s!"(n {n})"
+  | .num n => if n.scale = 0 then s!"(n {n.coeff})" else s!"(n {n.coeff} {n.scale})"
   | .str s => toString (Sexp.ofChars s)
   | .atom k t => s!"(a {kindStr k} {Sexp.ofChars t})"
   | .list xs => "(" ++ " ".intercalate ("l" :: xs.map valueStr) ++ ")"
